@@ -171,7 +171,7 @@ Record ccase := mkccase {
   c_quirks : bool * bool;             (* which variant the implementation was probed to be *)
   c_ops : list cop;
   c_names : list str;
-  c_obs : list (option cobs * list bool) }.
+  c_obs : list (option cobs * N) }.     (* directory listing as a bit mask over c_names *)
 
 Fixpoint assoc_md5 (l : list (N * str)) (u : N) : str :=
   match l with
@@ -187,7 +187,7 @@ Definition outcome_eqb (a b : outcome) : bool :=
   end.
 
 Fixpoint ctrace_eqb (names : list str) (tr : list (cstate * option (list N * outcome)))
-         (obs : list (option cobs * list bool)) : bool :=
+         (obs : list (option cobs * N)) : bool :=
   match tr, obs with
   | [], [] => true
   | (s, r) :: tr', (b, pres) :: obs' =>
@@ -196,7 +196,7 @@ Fixpoint ctrace_eqb (names : list str) (tr : list (cstate * option (list N * out
       | Some (f, out), Some c => list_eqb N.eqb f (o_fetched c) && outcome_eqb out (o_out c)
       | _, _ => false
       end
-      && list_eqb Bool.eqb (map (fun n => match fst s n with Some _ => true | None => false end) names) pres
+      && N.eqb (mask (fst s) names) pres
       && ctrace_eqb names tr' obs'
   | _, _ => false
   end.
